@@ -441,5 +441,11 @@ Qed.
 Corollary shelter_eq n g ctx p a o new : norec g = true -> envok ctx -> wfr a ->
   sem n g ctx p None = Some (o, new) -> sem n g ctx p a = Some (o, join a new).
 Proof. intros Hn He Ha H. exact (proj2 (sem_lift n g ctx p None o new Hn He I H) a Ha). Qed.
+
+(* hence memoized() - in the specification: its parser run on an empty register, the result merged back - is the identity
+   on parsers without recover_with / extension parsers, wherever the parser answers *)
+Corollary sem_memo_identity n id g ctx p a o new : norec g = true -> envok ctx -> wfr a ->
+  sem n g ctx p None = Some (o, new) -> sem (S n) (Memo id g) ctx p a = sem n g ctx p a.
+Proof. intros Hn He Ha H. cbn [Sem.sem]. rewrite H. symmetry. now apply shelter_eq. Qed.
 End Shelter.
 Print Assumptions sem_lift.
